@@ -215,6 +215,15 @@ func GenInputCase(t *rapid.T) (*Case, *InputMutation) {
 			out.Val.Set("e"+strconv.Itoa(i), ExprVal(&Expr{K: "in", Field: p.field, Path: p.path}))
 		}
 	}
+	// the same references behind optional tags: a produced source (the input always is) must be present
+	for i, p := range paths {
+		switch rapid.IntRange(0, 9).Draw(t, fmt.Sprintf("out.%d.opt?", i)) {
+		case 0, 1:
+			out.Val.Set("w"+strconv.Itoa(i), &Val{K: "waitopt", Expr: &Expr{K: "in", Field: p.field, Path: p.path}})
+		case 2:
+			out.Val.Set("so"+strconv.Itoa(i), &Val{K: "softopt", Expr: &Expr{K: "in", Field: p.field, Path: p.path}})
+		}
+	}
 	for _, s := range prog.Steps {
 		out.Val.Set("r_"+s.ID, ExprVal(&Expr{K: "out", Step: s.ID, Stage: "outputs", Output: "success"}))
 	}
